@@ -441,29 +441,39 @@ def _c14_add(d, dl, tiers):
                       unwind=max(10, d + dl + 1, 4 * (m + 1) + 6),
                       inputs=[('hash', 'u64'), ('c', 'u64'), ('k', 'u32')], replay='c14_external', replay_const={'depth': d, 'delta': dl, 'sorted': srt},
                       covers=['adjacent outside cell in another base cell'], domain=dom + ' x every cell of depth %d' % (d + dl),
-                      **dict(common, tiers=(tiers if not srt else T))))
+                      **dict(common, tiers=T, mem_gb=40, timeout=5400)))
     _c14.append(H('c14_struct_d%d_dd%d' % (d, dl), 'k_c14_struct(%d, %d);' % (d, dl), unwind=max(10, d + dl + 1, 4 * (m + 1) + 6),
                   inputs=[('hash', 'u64'), ('c', 'u64')], replay='c14_struct', replay_const={'depth': d, 'delta': dl},
-                  covers=['a north corner cell exists'], domain=dom + ' x every cell of depth %d' % (d + dl), **common))
+                  covers=['a north corner cell exists'], domain=dom + ' x every cell of depth %d' % (d + dl), **dict(common, tiers=T, mem_gb=40, timeout=5400)))
 for _d in (0, 1, 2):
     for _dl in (1, 2):
         _c14_add(_d, _dl, Q if (_d, _dl) in ((0, 1), (1, 1), (1, 2)) else T)
+for _d in (0, 1, 2, 3, 29):
+    _c14.append(H('c14_dirs_d%d' % _d, 'k_c14_dirs(%d);' % _d, tiers=Q if _d <= 2 else T, timeout=1800, mem_gb=8, unwind=max(4, _d + 1), stubs=_FMT,
+                  inputs=[('a', 'u64'), ('k', 'u8')], replay='c14_dirs', replay_const={'depth': _d},
+                  covers=['south polar base cell', 'north polar base cell, N direction'],
+                  domain='depth %d: every cell x every direction: seam tables (direction of a border cell seen from its neighbour in another base cell)' % _d))
 # depth + delta_depth = 29 (the statement includes it)
 _c14.append(H('c14_internal_d28_dd1', 'k_c14_internal(28, 1);', tiers=Q, timeout=1200, mem_gb=8, unwind=30, stubs=_FMT,
               inputs=[('hash', 'u64'), ('k', 'u32'), ('k2', 'u32')], replay='c14_internal', replay_const={'depth': 28, 'delta': 1},
               covers=['last cell of the walk'], domain='depth 28, delta_depth 1 (depth + delta = 29): every cell'))
 for w in (0, 1, 2):
-    _c14.append(H('c14_guard_%d' % w, 'k_c14_guard(1, 1, %d);' % w, tiers=Q, timeout=1800, mem_gb=12, should_panic=True, unwind=10, stubs=_FMT,
+    _c14.append(H('c14_guard_%d' % w, 'k_c14_guard(1, 1, %d);' % w, tiers=T, timeout=5400, mem_gb=40, should_panic=True, unwind=10, stubs=_FMT,
                   inputs=[('hash', 'u64')], replay='c14_guard', replay_const={'depth': 1, 'delta': 1, 'which': w},
                   never=['guard bypassed'], domain='depth 1, every cell number >= 48'))
 PROPS['C14'] = dict(
     inject=[dict(host='src/nested/mod.rs', mod='verif_c14', parts=['props/c14.rs', 'kani/c14.rs'])],
     harnesses=_c14,
-    functions=['nested::internal_edge', 'nested::internal_edge_sorted', 'nested::external_edge', 'nested::external_edge_sorted',
-               'nested::external_edge_struct', 'Layer::external_edge_generic', 'nested::internal_corner*', 'nested::internal_edge_part*',
-               'edge_cell_direction_from_neighbour', 'direction_from_neighbour', 'ExternalEdge'],
-    bounds={'all': 'TBD'},
-    assumptions=['plane oracle'],
+    functions=['nested::internal_edge', 'nested::internal_edge_sorted', 'Layer::internal_edge', 'Layer::internal_edge_sorted', 'nested::internal_corner*',
+               'nested::internal_edge_part*', 'edge_cell_direction_from_neighbour', 'direction_from_neighbour', '{npc,eqr,spc}_edge_direction_from_neighbour',
+               'nested::external_edge', 'nested::external_edge_sorted', 'nested::external_edge_struct', 'Layer::external_edge_generic', 'ExternalEdge'],
+    bounds={'quick': 'internal edge (walk order, sorted variant) and corner / side helpers: every cell, (depth, delta) in {(0,1),(1,1),(1,2),(28,1)}; seam direction tables: '
+                     'every cell x every direction at depths 0, 1, 2',
+            'thorough': 'adds (depth, delta) in {(0,2),(2,1),(2,2)}, seam tables at depths 3 and 29, and the external edge (plain, sorted, structured) against the plane oracle + guards, '
+                        'each with a 40 GB / 90 min cap (std iterator / Vec machinery: 5 M variables at depth 0)'},
+    outside='quick tier: the assembly of the external edge from neighbours + seam tables + internal sides (external_edge_generic / external_edge_struct themselves) is only decided in the thorough tier; delta_depth > 2',
+    assumptions=['plane oracle (harness/common/oracles.rs)', 'seam-table harness: Layer::neighbour is the adjacency oracle (decided against plane geometry by C04)',
+                 'std::fmt::format / std::io::_print replaced by empty stubs (error messages, one stray println!)'],
 )
 
 
